@@ -235,8 +235,9 @@ class SpawnProcess(multiprocessing.context.SpawnProcess):
         # is guaranteed to come after the last record. Ending the stream as soon as
         # the result arrives would lose the records still in flight, and would
         # leave the child unable to flush (and exit) once the pipe is full.
-        while self.exitcode is None:
-            time.sleep(0.001)
+        # Wait on the sentinel rather than polling `exitcode`: the latter would reap the
+        # child from this thread and race with `join`/`exitcode` in the user's thread.
+        multiprocessing.connection.wait([self.sentinel])
         self._logger_queue_.put(None)
 
     @staticmethod
